@@ -58,6 +58,14 @@ func (p *Parser) scanIgnoreWhitespace() (tok Token, lit string) {
 	return
 }
 
+// More tells whether anything but white space is left in the input, i.e. whether
+// Parse can be called again to read a further tree of the same text.
+func (p *Parser) More() bool {
+	tok, _ := p.scanIgnoreWhitespace()
+	p.unscan()
+	return tok != EOF
+}
+
 // Parses a Newick String.
 func (p *Parser) Parse() (newtree *tree.Tree, err error) {
 	// May have information inside [] before the tree
